@@ -64,23 +64,24 @@ Record pinv_t (t : option nat) (p : pool) : Prop := {
   i_hc_acq : forall r, In r (hc_pending p) ->
                status_of p r = Some RAcquired /\ t <> Some r /\ forall h, nth_error (handles p) h <> Some (Some r);
   i_hc_nd : NoDup (hc_pending p);
-  i_hc_ne : forall t0, hc p <> Some (t0, []);
   i_owner : forall r, status_of p r = Some RAcquired -> owned p r \/ t = Some r;
   i_t : forall r, t = Some r -> status_of p r = Some RAcquired;
   i_idle : forall r, In r (idle p) <-> status_of p r = Some RIdle;
   i_idle_nd : NoDup (idle p);
-  i_cnt : length (idle p) + held p <= c_max (p_cfg p);
-  i_icnt : stat_idle p = length (idle p);
+  i_cnt : length (idle p) + held p + ghosts p <= c_max (p_cfg p);
+  i_icnt : cnt is_idle (ress p) = length (idle p);
   i_open : forall r x, get_res p r = Some x -> r_status x = RIdle -> r_cclosed x = false;
   i_dead : forall r x, get_res p r = Some x -> r_status x = RDead -> r_cclosed x = true;
-  i_hc_open : forall r x, In r (hc_pending p) -> get_res p r = Some x -> r_cclosed x = false
+  i_hc_open : forall r x, In r (hc_pending p) -> get_res p r = Some x -> r_cclosed x = false;
+  i_ghost : pclosed p = false -> ghosts p = 0
 }.
 
 Definition pinv := pinv_t None.
 
 Ltac nrm := unfold status_of, closed_of, get_res, set_res, pd_destroy, hc_push, hc_pending, owned,
-                   held, total, stat_idle, stat_acquired in *;
-            cbn [ress idle handles hc pclosed now p_cfg set_ress set_idle set_handles set_hc set_pclosed set_now
+                   held, total, stat_idle, stat_acquired, stat_constructing in *;
+            cbn [ress idle handles hc pclosed now p_cfg spawned constructing ghosts
+                 set_ress set_idle set_handles set_hc set_pclosed set_now set_spawned set_constructing set_ghosts
                  r_status r_created r_lastused r_cclosed with_status with_lastused with_cclosed option_map] in *.
 
 Lemma status_get : forall p r s, status_of p r = Some s -> exists x, get_res p r = Some x /\ r_status x = s.
@@ -95,7 +96,6 @@ Proof.
   - intros h1 h2 r H; destruct h1; discriminate.
   - intros r [].
   - constructor.
-  - discriminate.
   - intros r H. unfold status_of, get_res in H. cbn in H. destruct r; discriminate.
   - discriminate.
   - intros r; split; [intros [] | intros H; unfold status_of, get_res in H; cbn in H; destruct r; discriminate].
@@ -105,6 +105,7 @@ Proof.
   - intros r x H; unfold get_res in H; cbn in H; destruct r; discriminate.
   - intros r x H; unfold get_res in H; cbn in H; destruct r; discriminate.
   - intros r x [].
+  - reflexivity.
 Qed.
 
 Lemma om_upd : forall (l : list resrc) r x y r', nth_error l r = Some y ->
@@ -140,7 +141,6 @@ Proof.
   - intros r' Hin. destruct (i_hc_acq _ _ I _ Hin) as (Hs & _ & Hh). nrm.
     rewrite (om_upd _ _ _ _ _ Hg). eqd r r'; [congruence|]. repeat split; auto; congruence.
   - apply (i_hc_nd _ _ I).
-  - apply (i_hc_ne _ _ I).
   - intros r'. rewrite (om_upd _ _ _ _ _ Hg). eqd r r'; auto.
     intros Hs. destruct (i_owner _ _ I _ Hs) as [Ho|]; [left; exact Ho | discriminate].
   - intros r' Ht. inversion Ht; subst. rewrite (om_upd _ _ _ _ _ Hg). rewrite Nat.eqb_refl. reflexivity.
@@ -162,6 +162,7 @@ Proof.
   - intros r' x' Hin. rewrite (nth_error_upd _ _ _ _ _ r' Hg). eqd r r'.
     + destruct (i_hc_acq _ _ I _ Hin) as (Hs & _). nrm. congruence.
     + apply (i_hc_open _ _ I); auto.
+  - apply (i_ghost _ _ I).
 Qed.
 
 Lemma nth_error_snoc : forall A (l : list A) x h v,
@@ -200,7 +201,6 @@ Proof.
     repeat split; auto; try discriminate.
     intros h Hq. apply nth_error_snoc in Hq. destruct Hq as [Hq | [_ Hq]]; [eapply Hh; eauto | congruence].
   - apply (i_hc_nd _ _ I).
-  - apply (i_hc_ne _ _ I).
   - intros r' Hs. left. destruct (i_owner _ _ I _ Hs) as [[[h Hh] | Hin] | Ht].
     + left. exists h. apply nth_error_snoc_l; auto.
     + right; auto.
@@ -214,6 +214,7 @@ Proof.
   - apply (i_open _ _ I).
   - apply (i_dead _ _ I).
   - apply (i_hc_open _ _ I).
+  - apply (i_ghost _ _ I).
 Qed.
 
 (* a handle that holds nothing (failed Acquire) *)
@@ -230,7 +231,6 @@ Proof.
     repeat split; auto.
     intros h Hq. apply nth_error_snoc in Hq. destruct Hq as [Hq | [_ Hq]]; [eapply Hh; eauto | congruence].
   - apply (i_hc_nd _ _ I).
-  - apply (i_hc_ne _ _ I).
   - intros r' Hs. destruct (i_owner _ _ I _ Hs) as [[[h Hh] | Hin] | Ht]; auto.
     left. left. exists h. apply nth_error_snoc_l; auto.
   - apply (i_t _ _ I).
@@ -241,6 +241,7 @@ Proof.
   - apply (i_open _ _ I).
   - apply (i_dead _ _ I).
   - apply (i_hc_open _ _ I).
+  - apply (i_ghost _ _ I).
 Qed.
 
 Lemma NoDup_app_snoc : forall (l : list nat) x, NoDup l -> ~ In x l -> NoDup (l ++ [x]).
@@ -275,9 +276,6 @@ Proof.
     + destruct (i_hc_acq _ _ I _ Hin) as (Hs & Hn & Hh). repeat split; auto. discriminate.
     + subst. repeat split; [apply (i_t _ _ I); auto | discriminate | auto].
   - apply NoDup_app_snoc; auto. apply (i_hc_nd _ _ I).
-  - intros t0. unfold hc_push. destruct (hc p) as [[t1 l]|]; cbn.
-    + intros H; inversion H. destruct l; discriminate.
-    + discriminate.
   - replace (status_of (hc_push p r)) with (status_of p) by (unfold hc_push; destruct (hc p) as [[? ?]|]; reflexivity).
     intros r' Hs. left. unfold owned. rewrite Hpend.
     replace (handles (hc_push p r)) with (handles p) by (unfold hc_push; destruct (hc p) as [[? ?]|]; reflexivity).
@@ -293,9 +291,10 @@ Proof.
   - replace (idle (hc_push p r)) with (idle p) by (unfold hc_push; destruct (hc p) as [[? ?]|]; reflexivity).
     replace (held (hc_push p r)) with (held p) by (unfold hc_push; destruct (hc p) as [[? ?]|]; reflexivity).
     replace (p_cfg (hc_push p r)) with (p_cfg p) by (unfold hc_push; destruct (hc p) as [[? ?]|]; reflexivity).
+    replace (ghosts (hc_push p r)) with (ghosts p) by (unfold hc_push; destruct (hc p) as [[? ?]|]; reflexivity).
     apply (i_cnt _ _ I).
   - replace (idle (hc_push p r)) with (idle p) by (unfold hc_push; destruct (hc p) as [[? ?]|]; reflexivity).
-    replace (stat_idle (hc_push p r)) with (stat_idle p) by (unfold hc_push; destruct (hc p) as [[? ?]|]; reflexivity).
+    replace (ress (hc_push p r)) with (ress p) by (unfold hc_push; destruct (hc p) as [[? ?]|]; reflexivity).
     apply (i_icnt _ _ I).
   - replace (get_res (hc_push p r)) with (get_res p) by (unfold hc_push; destruct (hc p) as [[? ?]|]; reflexivity).
     apply (i_open _ _ I).
@@ -305,6 +304,9 @@ Proof.
     intros r' x' Hin. apply in_app_or in Hin. destruct Hin as [Hin | [Hin | []]].
     + apply (i_hc_open _ _ I); auto.
     + subst. apply Hopen.
+  - replace (pclosed (hc_push p r)) with (pclosed p) by (unfold hc_push; destruct (hc p) as [[? ?]|]; reflexivity).
+    replace (ghosts (hc_push p r)) with (ghosts p) by (unfold hc_push; destruct (hc p) as [[? ?]|]; reflexivity).
+    apply (i_ghost _ _ I).
 Qed.
 
 Lemma nth_snoc : forall A (l : list A) x r,
@@ -324,10 +326,10 @@ Proof.
 Qed.
 
 (* construct a resource (createNewResource + constructor): acquired, in transit *)
-Lemma L_create : forall p t1 t2, pinv p -> idle p = [] -> held p < c_max (p_cfg p) ->
+Lemma L_create : forall p t1 t2, pinv p -> idle p = [] -> held p < c_max (p_cfg p) -> pclosed p = false ->
   pinv_t (Some (length (ress p))) (set_ress p (ress p ++ [mkRes RAcquired t1 t2 false])).
 Proof.
-  intros p t1 t2 I Hi Hh.
+  intros p t1 t2 I Hi Hh Hnc. pose proof (i_ghost _ _ I Hnc) as Hgh.
   constructor; nrm.
   - intros h r' Hq. destruct (i_h_acq _ _ I _ _ Hq) as [Hs _]. pose proof (st_lt _ _ _ Hs). nrm.
     rewrite nth_snoc. eqd r' (length (ress p)); [lia|]. split; [auto | intros E; inversion E; lia].
@@ -335,7 +337,6 @@ Proof.
   - intros r' Hin. destruct (i_hc_acq _ _ I _ Hin) as (Hs & _ & Hq). pose proof (st_lt _ _ _ Hs). nrm.
     rewrite nth_snoc. eqd r' (length (ress p)); [lia|]. repeat split; auto. intros E; inversion E; lia.
   - apply (i_hc_nd _ _ I).
-  - apply (i_hc_ne _ _ I).
   - intros r'. rewrite nth_snoc. eqd r' (length (ress p)); auto.
     intros Hs. destruct (i_owner _ _ I _ Hs) as [Ho|]; [left; exact Ho | discriminate].
   - intros r' Ht. inversion Ht; subst. rewrite nth_snoc, Nat.eqb_refl. reflexivity.
@@ -354,6 +355,7 @@ Proof.
   - intros r' x' Hin. rewrite nth_snoc. eqd r' (length (ress p)).
     + destruct (i_hc_acq _ _ I _ Hin) as (Hs & _). apply st_lt in Hs. lia.
     + apply (i_hc_open _ _ I); auto.
+  - apply (i_ghost _ _ I).
 Qed.
 
 (* a handle gives up its resource (res := c.res; c.res = nil) *)
@@ -372,7 +374,6 @@ Proof.
     + intros E; inversion E; subst. eapply Hq; eauto.
     + intros h' Hq'. apply Hu in Hq'. destruct Hq'. eapply Hq; eauto.
   - apply (i_hc_nd _ _ I).
-  - apply (i_hc_ne _ _ I).
   - intros r' Hs. destruct (i_owner _ _ I _ Hs) as [[[h' Hq] | Hin] | Ht]; try discriminate.
     + eqd h h'.
       * right. congruence.
@@ -386,6 +387,7 @@ Proof.
   - apply (i_open _ _ I).
   - apply (i_dead _ _ I).
   - apply (i_hc_open _ _ I).
+  - apply (i_ghost _ _ I).
 Qed.
 
 (* the health check takes the next resource of its list *)
@@ -394,7 +396,7 @@ Lemma L_take_hc : forall p t0 r rest, pinv p -> hc p = Some (t0, r :: rest) ->
 Proof.
   intros p t0 r rest I Hc.
   assert (Hp : hc_pending p = r :: rest) by (unfold hc_pending; rewrite Hc; auto).
-  assert (Hp' : hc_pending (set_hc p (hc_rest t0 rest)) = rest) by (unfold hc_pending, hc_rest; destruct rest; reflexivity).
+  assert (Hp' : hc_pending (set_hc p (hc_rest t0 rest)) = rest) by (unfold hc_pending, hc_rest; reflexivity).
   pose proof (i_hc_nd _ _ I) as Hnd. rewrite Hp in Hnd. inversion Hnd; subst.
   pose proof (i_hc_acq _ _ I) as Hacq. rewrite Hp in Hacq.
   pose proof (i_owner _ _ I) as Hown. unfold owned in Hown. rewrite Hp in Hown.
@@ -407,7 +409,6 @@ Proof.
   - intros r' Hin. destruct (Hacq r') as (Hs & _ & Hq); [right; auto|]. repeat split; auto.
     intros E; inversion E; subst. contradiction.
   - auto.
-  - intros t1. unfold hc_rest. destruct rest; discriminate.
   - intros r' Hs. destruct (Hown _ Hs) as [[Hq | Hin] | Ht]; try discriminate.
     + left. left. auto.
     + destruct Hin as [|Hin]; [right; congruence|]. left. right. exact Hin.
@@ -419,6 +420,7 @@ Proof.
   - apply (i_open _ _ I).
   - apply (i_dead _ _ I).
   - intros r' x' Hin. apply Hopen. right; auto.
+  - apply (i_ghost _ _ I).
 Qed.
 
 Lemma transit_status : forall p r x, pinv_t (Some r) p -> get_res p r = Some x -> r_status x = RAcquired.
@@ -453,7 +455,6 @@ Proof.
   - intros r' Hin. destruct (i_hc_acq _ _ I _ Hin) as (Hst & Hn & Hh). nrm.
     rewrite (om_upd _ _ _ _ _ Hg). eqd r r'; [congruence|]. repeat split; auto; discriminate.
   - apply (i_hc_nd _ _ I).
-  - apply (i_hc_ne _ _ I).
   - intros r'. rewrite (om_upd _ _ _ _ _ Hg). eqd r r'.
     + cbn. intros E; inversion E; congruence.
     + intros Hst. destruct (i_owner _ _ I _ Hst) as [Ho|E]; [left; exact Ho | inversion E; congruence].
@@ -476,6 +477,7 @@ Proof.
     + apply (i_dead _ _ I).
   - intros r' x' Hin. rewrite (nth_error_upd _ _ _ _ _ r' Hg). eqd r r'; [contradiction|].
     apply (i_hc_open _ _ I); auto.
+  - apply (i_ghost _ _ I).
 Qed.
 
 (* the resource in transit goes back on the idle stack *)
@@ -492,7 +494,6 @@ Proof.
   - intros r' Hin. destruct (i_hc_acq _ _ I _ Hin) as (Hst & Hn & Hh). nrm.
     rewrite (om_upd _ _ _ _ _ Hg). eqd r r'; [congruence|]. repeat split; auto; discriminate.
   - apply (i_hc_nd _ _ I).
-  - apply (i_hc_ne _ _ I).
   - intros r'. rewrite (om_upd _ _ _ _ _ Hg). eqd r r'.
     + cbn. discriminate.
     + intros Hst. destruct (i_owner _ _ I _ Hst) as [Ho|E]; [left; exact Ho | inversion E; congruence].
@@ -513,6 +514,7 @@ Proof.
     + apply (i_dead _ _ I).
   - intros r' x' Hin. rewrite (nth_error_upd _ _ _ _ _ r' Hg). eqd r r'; [contradiction|].
     apply (i_hc_open _ _ I); auto.
+  - apply (i_ghost _ _ I).
 Qed.
 
 (* a request on an acquired resource may close its client; nothing else changes *)
@@ -527,7 +529,6 @@ Proof.
   - apply (i_h_inj _ _ I).
   - apply (i_hc_acq _ _ I).
   - apply (i_hc_nd _ _ I).
-  - apply (i_hc_ne _ _ I).
   - apply (i_owner _ _ I).
   - apply (i_t _ _ I).
   - apply (i_idle _ _ I).
@@ -544,6 +545,7 @@ Proof.
     + apply (i_dead _ _ I).
   - intros r' x' Hin. rewrite (nth_error_upd _ _ _ _ _ r' Hg). eqd r r'; [contradiction|].
     apply (i_hc_open _ _ I); auto.
+  - apply (i_ghost _ _ I).
 Qed.
 
 (* a goroutine started by Destroy / by a removal finishes: the destructor closes the client *)
@@ -558,7 +560,7 @@ Proof.
         [ unfold status_of; rewrite Hg; cbn; rewrite Hx; split; intros E; inversion E; destruct Hs; congruence
         | reflexivity ]).
   all: constructor; nrm.
-  all: try solve [ apply (i_h_inj _ _ I) | apply (i_hc_nd _ _ I) | apply (i_hc_ne _ _ I) | apply (i_idle_nd _ _ I) ].
+  all: try solve [ apply (i_h_inj _ _ I) | apply (i_hc_nd _ _ I) | apply (i_idle_nd _ _ I) | apply (i_ghost _ _ I) ].
   all: try solve [ intros h r' Hh; destruct (i_h_acq _ _ I _ _ Hh) as [Hs Hn]; split; auto; apply Hst; auto ].
   all: try solve [ intros r' Hin; destruct (i_hc_acq _ _ I _ Hin) as (Hs & Hn & Hh); repeat split; auto; apply Hst; auto ].
   all: try solve [ intros r' Hs; apply Hst in Hs; auto; apply (i_owner _ _ I _ Hs) ].
@@ -583,14 +585,25 @@ Definition pgood (p : pool) : Prop := pinv p /\ cinv p.
 
 Lemma L_now : forall t p x, pinv_t t p -> pinv_t t (set_now p x).
 Proof. intros t p x I. destruct I. constructor; auto. Qed.
-Lemma L_closed : forall t p x, pinv_t t p -> pinv_t t (set_pclosed p x).
+Lemma L_closed : forall t p, pinv_t t p -> pinv_t t (set_pclosed p true).
+Proof. intros t p I. destruct I. constructor; auto. discriminate. Qed.
+Lemma L_spawned : forall t p x, pinv_t t p -> pinv_t t (set_spawned p x).
 Proof. intros t p x I. destruct I. constructor; auto. Qed.
+
+Lemma L_hc_same : forall t p h, pinv_t t p -> hc_pending (set_hc p h) = hc_pending p -> pinv_t t (set_hc p h).
+Proof.
+  intros t p h I E. destruct I. constructor; unfold owned in *; try rewrite E; auto.
+Qed.
+Lemma L_constr : forall t p l, pinv_t t p ->
+  length (idle p) + (cnt holds_token (ress p) + length l) + ghosts p <= c_max (p_cfg p) ->
+  pinv_t t (set_constructing p l).
+Proof. intros t p l I H. destruct I. constructor; auto. Qed.
 
 Lemma idle_get : forall t p r, pinv_t t p -> In r (idle p) -> exists x, get_res p r = Some x /\ r_status x = RIdle.
 Proof. intros t p r I Hin. apply (i_idle _ _ I) in Hin. apply status_get; auto. Qed.
 
-Lemma total_eq : forall t p, pinv_t t p -> total p = length (idle p) + held p.
-Proof. intros t p I. unfold total, held. rewrite total_split. pose proof (i_icnt _ _ I) as H. unfold stat_idle in H. lia. Qed.
+Lemma total_eq : forall t p, pinv_t t p -> total p = length (idle p) + held p + ghosts p.
+Proof. intros t p I. unfold total, held. rewrite total_split. pose proof (i_icnt _ _ I) as H. lia. Qed.
 
 Lemma pd_acquire_ok : forall p d, pinv p ->
   match pd_acquire p d with
@@ -604,7 +617,7 @@ Proof.
   destruct (pclosed p) eqn:Hc; auto.
   apply Nat.leb_gt in Hm.
   destruct (idle p) as [|r rest] eqn:Hi.
-  - pose proof (total_eq _ _ I) as Ht. rewrite Hi in Ht. cbn in Ht.
+  - pose proof (total_eq _ _ I) as Ht. rewrite Hi in Ht. cbn in Ht. pose proof (i_ghost _ _ I Hc) as Hgh.
     destruct (c_max (p_cfg p) <=? total p) eqn:Hm2; [apply Nat.leb_le in Hm2; lia|].
     destruct d; auto. split; [|auto]. apply L_create; auto.
   - destruct (idle_get _ p r I) as (x & Hg & Hx); [rewrite Hi; left; auto|].
@@ -687,8 +700,10 @@ Lemma tick_begin_ok : forall p, pgood p -> pgood (tick_begin p).
 Proof.
   intros p [I C]. unfold tick_begin. destruct (hc p) eqn:Hh; [split; auto|].
   destruct (pclosed p) eqn:Hc; [split; auto|].
-  destruct (hc_take_ok (sem_all (c_max (p_cfg p) - held p) (length (idle p))) p I) as [I' Hc'].
-  split; auto. intros Hq. congruence.
+  assert (I0 : pinv (set_hc p (Some (now p, [])))).
+  { apply L_hc_same; auto. unfold hc_pending. cbn. rewrite Hh. reflexivity. }
+  destruct (hc_take_ok (sem_all (c_max (p_cfg p) - held p) (length (idle p))) _ I0) as [I' Hc'].
+  split; auto. intros Hq. cbn in Hc'. congruence.
 Qed.
 
 Lemma tick_step_ok : forall p, pgood p -> exists p' o, tick_step p = POk p' o /\ pgood p'.
@@ -741,6 +756,136 @@ Proof.
   split; auto. intros _. split; auto. rewrite Hh'. exact Hh.
 Qed.
 
+
+(* ---- checkMinConns and the creations it starts; createIdleResources ------------------------------- *)
+Lemma check_min_ok : forall p, pgood p -> pgood (check_min p).
+Proof.
+  intros p [I C]. unfold check_min. destruct (hc p) as [[t0 [|r rest]]|] eqn:Hh; try (split; auto; fail).
+  split.
+  - apply L_spawned. apply L_hc_same; auto. unfold hc_pending. cbn. rewrite Hh. reflexivity.
+  - intros Hq. cbn in Hq. apply C in Hq. destruct Hq; congruence.
+Qed.
+
+Lemma remove_nth_length : forall A (l : list A) i t, nth_error l i = Some t -> S (length (remove_nth i l)) = length l.
+Proof.
+  induction l; intros i t H; destruct i; cbn in *; try discriminate; auto. f_equal. eapply IHl; eauto.
+Qed.
+
+(* a resource constructed by CreateResource enters an open pool: idle, on top of the stack *)
+Lemma L_add_idle : forall p t, pinv p -> length (idle p) + held p + ghosts p < c_max (p_cfg p) ->
+  pinv (set_idle (set_ress p (ress p ++ [mkRes RIdle t t false])) (length (ress p) :: idle p)).
+Proof.
+  intros p t I Hroom.
+  assert (Hni : ~ In (length (ress p)) (idle p)).
+  { intros Hin. apply (i_idle _ _ I) in Hin. apply st_lt in Hin. lia. }
+  constructor; nrm.
+  - intros h r' Hq. destruct (i_h_acq _ _ I _ _ Hq) as [Hs _]. pose proof (st_lt _ _ _ Hs). nrm.
+    rewrite nth_snoc. eqd r' (length (ress p)); [lia|]. split; [auto | discriminate].
+  - apply (i_h_inj _ _ I).
+  - intros r' Hin. destruct (i_hc_acq _ _ I _ Hin) as (Hs & _ & Hq). pose proof (st_lt _ _ _ Hs). nrm.
+    rewrite nth_snoc. eqd r' (length (ress p)); [lia|]. repeat split; auto. discriminate.
+  - apply (i_hc_nd _ _ I).
+  - intros r'. rewrite nth_snoc. eqd r' (length (ress p)); [cbn; discriminate|].
+    intros Hs. destruct (i_owner _ _ I _ Hs) as [Ho|]; [left; exact Ho | discriminate].
+  - discriminate.
+  - intros r'. rewrite nth_snoc. pose proof (i_idle _ _ I r') as Hii. nrm. eqd r' (length (ress p)).
+    + cbn. split; auto.
+    + cbn. rewrite <- Hii. split; [intros [|]; [congruence | auto] | auto].
+  - constructor; auto. apply (i_idle_nd _ _ I).
+  - rewrite cnt_app. cbn. lia.
+  - rewrite cnt_app. cbn. pose proof (i_icnt _ _ I). lia.
+  - intros r' x'. rewrite nth_snoc. eqd r' (length (ress p)).
+    + intros Hq; inversion Hq; subst. cbn. auto.
+    + apply (i_open _ _ I).
+  - intros r' x'. rewrite nth_snoc. eqd r' (length (ress p)).
+    + intros Hq; inversion Hq; subst. cbn. discriminate.
+    + apply (i_dead _ _ I).
+  - intros r' x' Hin. rewrite nth_snoc. eqd r' (length (ress p)).
+    + destruct (i_hc_acq _ _ I _ Hin) as (Hs & _). apply st_lt in Hs. lia.
+    + apply (i_hc_open _ _ I); auto.
+  - apply (i_ghost _ _ I).
+Qed.
+
+(* ... enters a closed pool: its destructor is started; puddle keeps counting it *)
+Lemma L_add_ghost : forall p t, pinv p -> pclosed p = true -> length (idle p) + held p + ghosts p < c_max (p_cfg p) ->
+  pinv (set_ghosts (set_ress p (ress p ++ [mkRes RClosing t t false])) (S (ghosts p))).
+Proof.
+  intros p t I Hc Hroom.
+  constructor; nrm.
+  - intros h r' Hq. destruct (i_h_acq _ _ I _ _ Hq) as [Hs _]. pose proof (st_lt _ _ _ Hs). nrm.
+    rewrite nth_snoc. eqd r' (length (ress p)); [lia|]. split; [auto | discriminate].
+  - apply (i_h_inj _ _ I).
+  - intros r' Hin. destruct (i_hc_acq _ _ I _ Hin) as (Hs & _ & Hq). pose proof (st_lt _ _ _ Hs). nrm.
+    rewrite nth_snoc. eqd r' (length (ress p)); [lia|]. repeat split; auto. discriminate.
+  - apply (i_hc_nd _ _ I).
+  - intros r'. rewrite nth_snoc. eqd r' (length (ress p)); [cbn; discriminate|].
+    intros Hs. destruct (i_owner _ _ I _ Hs) as [Ho|]; [left; exact Ho | discriminate].
+  - discriminate.
+  - intros r'. rewrite nth_snoc. pose proof (i_idle _ _ I r') as Hii. nrm. eqd r' (length (ress p)).
+    + cbn. split; [|discriminate]. intros Hin. apply Hii in Hin.
+      assert (Hlt : length (ress p) < length (ress p)); [|lia].
+      apply nth_error_Some. destruct (nth_error (ress p) (length (ress p))); [discriminate | discriminate].
+    + exact Hii.
+  - apply (i_idle_nd _ _ I).
+  - rewrite cnt_app. cbn. lia.
+  - rewrite cnt_app. cbn. pose proof (i_icnt _ _ I). lia.
+  - intros r' x'. rewrite nth_snoc. eqd r' (length (ress p)).
+    + intros Hq; inversion Hq; subst. cbn. discriminate.
+    + apply (i_open _ _ I).
+  - intros r' x'. rewrite nth_snoc. eqd r' (length (ress p)).
+    + intros Hq; inversion Hq; subst. cbn. discriminate.
+    + apply (i_dead _ _ I).
+  - intros r' x' Hin. rewrite nth_snoc. eqd r' (length (ress p)).
+    + destruct (i_hc_acq _ _ I _ Hin) as (Hs & _). apply st_lt in Hs. lia.
+    + apply (i_hc_open _ _ I); auto.
+  - congruence.
+Qed.
+
+Lemma add_created_ok : forall p t, pgood p -> length (idle p) + held p + ghosts p < c_max (p_cfg p) ->
+  pgood (add_created p t).
+Proof.
+  intros p t [I C] Hroom. unfold add_created. destruct (pclosed p) eqn:Hc.
+  - split; [apply L_add_ghost; auto|]. intros _. apply C. exact Hc.
+  - split; [apply L_add_idle; auto|]. intros Hq. cbn in Hq. congruence.
+Qed.
+
+Lemma spawn_begin_ok : forall p, pgood p -> pgood (spawn_begin p).
+Proof.
+  intros p [I C]. unfold spawn_begin. destruct (spawned p) as [|n] eqn:Hs; [split; auto|].
+  destruct (create_refused p) eqn:Hr.
+  - split; [apply L_spawned; auto | exact C].
+  - unfold create_refused in Hr. apply orb_false_iff in Hr. destruct Hr as [Hr H3].
+    apply orb_false_iff in Hr. destruct Hr as [H1 H2]. apply Nat.leb_gt in H1, H3.
+    pose proof (total_eq _ _ I) as Ht. unfold held in *.
+    split; [|exact C]. apply L_constr; [apply L_spawned; auto|]. rewrite app_length.
+    cbn [length ress idle ghosts p_cfg constructing set_spawned]. lia.
+Qed.
+
+Lemma spawn_end_ok : forall p i d, pgood p -> pgood (spawn_end p i d).
+Proof.
+  intros p i d [I C]. unfold spawn_end. destruct (nth_error (constructing p) i) as [t|] eqn:Hn; [|split; auto].
+  pose proof (remove_nth_length _ _ _ _ Hn) as Hl. pose proof (i_cnt _ _ I) as Hcnt. unfold held in Hcnt.
+  assert (G1 : pgood (set_constructing p (remove_nth i (constructing p)))).
+  { split; [|exact C]. apply L_constr; auto. lia. }
+  destruct d; [|exact G1]. apply add_created_ok; auto. unfold held.
+  cbn [ress idle ghosts p_cfg constructing set_constructing]. lia.
+Qed.
+
+Lemma create_resource_ok : forall p d, pgood p -> pgood (fst (create_resource p d)).
+Proof.
+  intros p d G. unfold create_resource. destruct (create_refused p) eqn:Hr; [exact G|].
+  destruct d; [|exact G]. cbn [fst]. apply add_created_ok; auto.
+  unfold create_refused in Hr. apply orb_false_iff in Hr. destruct Hr as [_ H3]. apply Nat.leb_gt in H3.
+  rewrite (total_eq _ _ (proj1 G)) in H3. exact H3.
+Qed.
+
+Lemma create_idle_ok : forall k dials p, pgood p -> pgood (fst (create_idle k dials p)).
+Proof.
+  induction k; intros dials p G; cbn; auto.
+  pose proof (create_resource_ok p (hd true dials) G) as G1.
+  destruct (create_resource p (hd true dials)) as [p' [|]]; cbn [fst] in *; auto.
+Qed.
+
 Theorem pstep_good : forall p o, pgood p -> exists p' ob, pstep p o = POk p' ob /\ pgood p'.
 Proof.
   intros p o G. destruct o; cbn [pstep].
@@ -757,10 +902,20 @@ Proof.
     intros Hq. unfold pd_finish in *. destruct (get_res p r) as [x|]; [|auto].
     destruct (r_status x); auto.
   - eexists _, _; split; [reflexivity | apply ch_close_ok; auto].
+  - eexists _, _; split; [reflexivity | apply check_min_ok; auto].
+  - eexists _, _; split; [reflexivity | apply spawn_begin_ok; auto].
+  - eexists _, _; split; [reflexivity | apply spawn_end_ok; auto].
 Qed.
 
 Lemma pinit_good : forall c, pgood (pinit c).
 Proof. intros c. split; [apply pinit_inv | intros H; discriminate]. Qed.
+
+(* newPool *)
+Lemma pnew_good : forall c dials, pgood (pnew c dials).
+Proof.
+  intros c dials. unfold pnew. pose proof (create_idle_ok (c_min c) dials (pinit c) (pinit_good c)) as G.
+  destruct (create_idle (c_min c) dials (pinit c)) as [p [|]]; cbn [fst] in G; auto. apply ch_close_ok; auto.
+Qed.
 
 Theorem prun_good : forall ops p, pgood p -> exists p', prun p ops = Some p' /\ pgood p'.
 Proof.
@@ -769,16 +924,16 @@ Proof.
 Qed.
 
 (* ---- reachable states ------------------------------------------------------------------------- *)
-Definition reachable (c : cfg) (p : pool) : Prop := exists ops, prun (pinit c) ops = Some p.
+Definition reachable (c : cfg) (p : pool) : Prop := exists dials ops, prun (pnew c dials) ops = Some p.
 
 Theorem reachable_good : forall c p, reachable c p -> pgood p.
 Proof.
-  intros c p [ops H]. destruct (prun_good ops (pinit c) (pinit_good c)) as (p' & E & G). congruence.
+  intros c p (dials & ops & H). destruct (prun_good ops (pnew c dials) (pnew_good c dials)) as (p' & E & G). congruence.
 Qed.
 
 (* no operation history makes puddle panic *)
-Theorem never_crashes : forall c ops, exists p, prun (pinit c) ops = Some p /\ pgood p.
-Proof. intros. apply prun_good. apply pinit_good. Qed.
+Theorem never_crashes : forall c dials ops, exists p, prun (pnew c dials) ops = Some p /\ pgood p.
+Proof. intros. apply prun_good. apply pnew_good. Qed.
 
 Lemma handle_of_spec : forall p h r, handle_of p h = Some r <-> nth_error (handles p) h = Some (Some r).
 Proof.
@@ -799,10 +954,11 @@ Qed.
 
 (* P2 *)
 Theorem total_le_max_good : forall p, pgood p ->
-  total p <= c_max (p_cfg p) /\ total p = stat_idle p + stat_acquired p /\ stat_idle p = length (idle p).
+  total p <= c_max (p_cfg p) /\ total p = stat_idle p + stat_acquired p + stat_constructing p /\
+  stat_idle p = length (idle p) + ghosts p /\ (pclosed p = false -> ghosts p = 0).
 Proof.
   intros p [I C]. pose proof (total_eq _ _ I). pose proof (i_cnt _ _ I). pose proof (i_icnt _ _ I).
-  unfold stat_acquired, held in *. repeat split; lia.
+  unfold stat_acquired, stat_constructing, stat_idle, held in *. repeat split; try lia. apply (i_ghost _ _ I).
 Qed.
 
 (* what an Acquire hands out is a live connection: the client of the resource behind a fresh handle is open *)
@@ -1021,6 +1177,14 @@ Proof.
   destruct (r_status x) eqn:Hx; try apply ev_refl; cbn; (eapply ev_upd; eauto; repeat split; auto).
 Qed.
 
+Lemma ev_add_created : forall p t, evolves (ress p) (ress (add_created p t)).
+Proof. intros p t. unfold add_created. destruct (pclosed p); cbn; apply ev_app. Qed.
+Lemma ev_spawn_end : forall p i d, evolves (ress p) (ress (spawn_end p i d)).
+Proof.
+  intros p i d. unfold spawn_end. destruct (nth_error (constructing p) i); [|apply ev_refl].
+  destruct d; [|apply ev_refl]. apply (ev_add_created (set_constructing p (remove_nth i (constructing p)))).
+Qed.
+
 Theorem pstep_evolves : forall p o p' ob, pgood p -> pstep p o = POk p' ob -> evolves (ress p) (ress p').
 Proof.
   intros p o p' ob G H. destruct o; cbn [pstep] in H.
@@ -1030,13 +1194,18 @@ Proof.
   - eapply ev_ch_do; eauto.
   - eapply ev_pool_do; eauto.
   - eapply ev_pool_do; eauto.
-  - inversion H; subst. unfold tick_begin. destruct (hc p); [apply ev_refl|]. destruct (pclosed p); [apply ev_refl|].
-    apply ev_hc_take. apply G.
+  - inversion H; subst. unfold tick_begin. destruct (hc p) eqn:Hh; [apply ev_refl|]. destruct (pclosed p); [apply ev_refl|].
+    apply (ev_hc_take _ (set_hc p (Some (now p, [])))).
+    apply L_hc_same; [apply G|]. unfold hc_pending. cbn. rewrite Hh. reflexivity.
   - eapply ev_tick_step; eauto.
   - inversion H; subst. apply ev_refl.
   - inversion H; subst. apply ev_finish.
   - inversion H; subst. unfold ch_close. destruct (pclosed p); [apply ev_refl|]. destruct (hc p); [apply ev_refl|].
     apply (ev_close_idle (length (idle p)) (set_pclosed p true)); auto. apply L_closed. apply G.
+  - inversion H; subst. unfold check_min. destruct (hc p) as [[? [|? ?]]|]; apply ev_refl.
+  - inversion H; subst. unfold spawn_begin. destruct (spawned p); [apply ev_refl|].
+    destruct (create_refused p); apply ev_refl.
+  - inversion H; subst. apply ev_spawn_end.
 Qed.
 
 Theorem prun_evolves : forall ops p p', pgood p -> prun p ops = Some p' -> evolves (ress p) (ress p') /\ pgood p'.
@@ -1167,15 +1336,70 @@ Proof.
       * apply J8; auto. rewrite Hgr, Hg0. destruct (Nat.eqb_spec r r'); [subst r'; contradiction | auto].
 Qed.
 
-Lemma tick_all_spec : forall l p t0, pgood p -> hc p = Some (t0, l) -> l <> [] ->
-  exists p', tick_all (length l) p = Some p' /\ hc p' = None /\ pgood p' /\ now p' = now p /\ handles p' = handles p /\
+(* what the idle pass leaves alone: Stat().TotalResources() (a resource being destroyed is still counted),
+   the creations started by earlier ticks *)
+Definition frame (p p' : pool) : Prop :=
+  total p' = total p /\ spawned p' = spawned p /\ constructing p' = constructing p /\ ghosts p' = ghosts p.
+Lemma frame_refl : forall p, frame p p.
+Proof. intros; repeat split. Qed.
+Lemma frame_trans : forall a b c, frame a b -> frame b c -> frame a c.
+Proof. intros a b c (A1 & A2 & A3 & A4) (B1 & B2 & B3 & B4). repeat split; congruence. Qed.
+
+Lemma cnt_upd_same : forall f l i x y, nth_error l i = Some y -> f (r_status x) = f (r_status y) ->
+  cnt f (upd l i x) = cnt f l.
+Proof. intros f l i x y H E. pose proof (cnt_upd f l i x y H) as Hu. rewrite E in Hu. lia. Qed.
+
+Lemma frame_set_res : forall p r x y, get_res p r = Some y -> in_pool (r_status x) = in_pool (r_status y) ->
+  frame p (set_res p r x).
+Proof.
+  intros p r x y Hg E. unfold frame, total, set_res. cbn [ress constructing ghosts spawned set_ress].
+  rewrite (cnt_upd_same in_pool _ _ x y Hg E). auto.
+Qed.
+
+Lemma hc_take_frame : forall k p, pinv p -> frame p (hc_take k p).
+Proof.
+  induction k; intros p I; cbn; [apply frame_refl|].
+  destruct (idle p) as [|r rest] eqn:Hi; [apply frame_refl|].
+  destruct (idle_get _ p r I) as (x & Hg & Hx); [rewrite Hi; left; auto|]. rewrite Hg.
+  pose proof (L_pop _ _ _ _ I Hi Hg) as I1.
+  assert (I2 : pinv (hc_push (set_idle (set_res p r (with_status x RAcquired)) rest) r)).
+  { apply L_give_hc; auto. intros x'. unfold get_res, set_res. cbn.
+    rewrite (nth_error_upd _ _ _ _ _ r Hg), Nat.eqb_refl. intros E; inversion E; subst. cbn.
+    apply (i_open _ _ I _ _ Hg Hx). }
+  eapply frame_trans; [|apply IHk; exact I2].
+  pose proof (frame_set_res p r (with_status x RAcquired) x Hg) as F. rewrite Hx in F. specialize (F eq_refl).
+  unfold frame, total, hc_push in *. destruct (hc (set_idle (set_res p r (with_status x RAcquired)) rest)) as [[? ?]|]; exact F.
+Qed.
+
+Lemma tick_step_frame : forall p p' o, pgood p -> tick_step p = POk p' o -> frame p p'.
+Proof.
+  intros p p' o [I C] H. unfold tick_step in H.
+  destruct (hc p) as [[t0 [|r rest]]|] eqn:Hh; try (inversion H; subst; apply frame_refl).
+  assert (Hnc : pclosed p = false).
+  { destruct (pclosed p) eqn:Hc; auto. apply C in Hc. destruct Hc; congruence. }
+  unfold get_res in H. cbn in H. destruct (nth_error (ress p) r) as [x|] eqn:Hg; [|discriminate].
+  destruct (r_status x) eqn:Hx; cbn in H; try discriminate.
+  assert (F : forall x', in_pool (r_status x') = true -> frame p (set_res (set_hc p (hc_rest t0 rest)) r x')).
+  { intros x' E. apply (frame_set_res (set_hc p (hc_rest t0 rest)) r x' x Hg). rewrite Hx. exact E. }
+  destruct (expired_life (p_cfg p) t0 (r_created x)); [inversion H; subst; apply F; reflexivity|].
+  destruct (expired_idle (p_cfg p) (now p) (r_lastused x)); [inversion H; subst; apply F; reflexivity|].
+  inversion H; subst. unfold pd_release. cbn [pclosed set_hc]. rewrite Hnc.
+  specialize (F (with_status (with_lastused x (r_lastused x)) RIdle) eq_refl).
+  unfold frame, total in *. exact F.
+Qed.
+
+Lemma tick_all_spec : forall l p t0, pgood p -> hc p = Some (t0, l) ->
+  exists p', tick_all (length l) p = Some p' /\ hc p' = Some (t0, []) /\ pgood p' /\ now p' = now p /\ handles p' = handles p /\
+    p_cfg p' = p_cfg p /\ pclosed p' = pclosed p /\ frame p p' /\
     (forall r, ~ In r l -> get_res p' r = get_res p r) /\
     (forall r, In r (idle p) -> In r (idle p')) /\
     forall r x, In r l -> get_res p r = Some x ->
       if tick_verdict (p_cfg p) t0 (now p) x then status_of p' r = Some RDestroying
       else status_of p' r = Some RIdle /\ In r (idle p').
 Proof.
-  induction l as [|r rest IH]; intros p t0 G Hh Hne; [congruence|].
+  induction l as [|r rest IH]; intros p t0 G Hh.
+  { exists p. cbn. split; [destruct (hc p) as [[? [|? ?]]|]; reflexivity|]. split; [exact Hh|]. split; [exact G|].
+    do 4 (split; [reflexivity|]). split; [apply frame_refl|]. split; [auto|]. split; [auto|]. intros ? ? []. }
   pose proof (proj1 G) as I.
   assert (Hpend : hc_pending p = r :: rest) by (unfold hc_pending; rewrite Hh; auto).
   pose proof (i_hc_nd _ _ I) as Hnd. rewrite Hpend in Hnd. inversion Hnd as [|? ? Hnr Hnd']; subst.
@@ -1183,68 +1407,90 @@ Proof.
   destruct (status_get _ _ _ Hs) as (x & Hg & Hx).
   destruct (tick_step_spec p t0 r rest x G Hh Hg) as (p1 & E1 & H1 & N1 & C1 & K1 & HH1 & U1 & S1 & V1).
   destruct (tick_step_ok p G) as (p1' & o1 & E1' & G1). rewrite E1 in E1'. inversion E1'; subst p1' o1. clear E1'.
+  pose proof (tick_step_frame _ _ _ G E1) as F1.
   cbn [length tick_all]. rewrite Hh, E1.
-  destruct rest as [|r2 rest'].
-  - cbn in H1. exists p1. cbn. rewrite H1.
-    split; [reflexivity|]. split; [reflexivity|]. split; [exact G1|]. split; [exact N1|]. split; [exact HH1|].
-    split; [|split; [exact S1|]].
-    + intros r' Hn. apply U1. intros E; subst. apply Hn. left; auto.
-    + intros r' x' [E|[]] Hg'. subst r'. assert (x' = x) by congruence. subst x'. exact V1.
-  - assert (H1' : hc p1 = Some (t0, r2 :: rest')) by exact H1.
-    destruct (IH p1 t0 G1 H1' ltac:(discriminate)) as (p' & E & Hn' & G' & N' & HH' & U' & S' & V').
-    exists p'. rewrite E.
-    split; [reflexivity|]. split; [exact Hn'|]. split; [exact G'|]. split; [congruence|]. split; [congruence|].
-    split; [|split; [intros r' Hin; apply S'; apply S1; exact Hin|]].
-    + intros r' Hn. rewrite U' by (intros Hin; apply Hn; right; auto). apply U1. intros E2; subst. apply Hn. left; auto.
-    + intros r' x' [E2 | Hin] Hg'.
-      * subst r'. assert (x' = x) by congruence. subst x'.
-        assert (Hsame : status_of p' r = status_of p1 r) by (unfold status_of; rewrite U'; auto).
-        destruct (tick_verdict (p_cfg p) t0 (now p) x).
-        -- congruence.
-        -- destruct V1 as [V1a V1b]. split; [congruence | apply S'; auto].
-      * assert (r' <> r) by (intros E2; subst; contradiction).
-        specialize (V' r' x' Hin). rewrite U1 in V' by auto. rewrite C1, N1 in V'. apply V'. exact Hg'.
+  assert (H1' : hc p1 = Some (t0, rest)) by exact H1.
+  destruct (IH p1 t0 G1 H1') as (p' & E & Hn' & G' & N' & HH' & C' & K' & F' & U' & S' & V').
+  exists p'. rewrite E.
+  split; [reflexivity|]. split; [exact Hn'|]. split; [exact G'|]. split; [congruence|]. split; [congruence|].
+  split; [congruence|]. split; [congruence|]. split; [eapply frame_trans; eauto|].
+  split; [|split; [intros r' Hin; apply S'; apply S1; exact Hin|]].
+  + intros r' Hn. rewrite U' by (intros Hin; apply Hn; right; auto). apply U1. intros E2; subst. apply Hn. left; auto.
+  + intros r' x' [E2 | Hin] Hg'.
+    * subst r'. assert (x' = x) by congruence. subst x'.
+      assert (Hsame : status_of p' r = status_of p1 r) by (unfold status_of; rewrite U'; auto).
+      destruct (tick_verdict (p_cfg p) t0 (now p) x).
+      -- congruence.
+      -- destruct V1 as [V1a V1b]. split; [congruence | apply S'; auto].
+    * assert (r' <> r) by (intros E2; subst; contradiction).
+      specialize (V' r' x' Hin). rewrite U1 in V' by auto. rewrite C1, N1 in V'. apply V'. exact Hg'.
 Qed.
 
-(* a whole health check on an open pool: exactly the idle resources past their lifetime or idle time are
-   destroyed, the others stay idle; nothing else is touched *)
-Theorem tick_full_spec : forall p, pgood p -> hc p = None -> pclosed p = false ->
-  exists p', tick_full p = Some p' /\ hc p' = None /\ pgood p' /\
+(* the idle pass of a tick on an open pool: exactly the idle resources past their lifetime or idle time are
+   destroyed - whatever MinConns is -, the others stay idle; nothing else is touched *)
+Lemma tick_pass_spec : forall p, pgood p -> hc p = None -> pclosed p = false ->
+  exists p', tick_pass p = Some p' /\ hc p' = Some (now p, []) /\ pgood p' /\
+    now p' = now p /\ p_cfg p' = p_cfg p /\ pclosed p' = false /\ frame p p' /\
     (forall r x, In r (idle p) -> get_res p r = Some x ->
        if tick_verdict (p_cfg p) (now p) (now p) x then status_of p' r = Some RDestroying
        else status_of p' r = Some RIdle /\ In r (idle p')) /\
     (forall r, ~ In r (idle p) -> get_res p' r = get_res p r) /\ handles p' = handles p.
 Proof.
   intros p G Hh Hc. pose proof (proj1 G) as I.
-  unfold tick_full, tick_begin. rewrite Hh, Hc.
+  unfold tick_pass, tick_begin. rewrite Hh, Hc.
   assert (Hk : sem_all (c_max (p_cfg p) - held p) (length (idle p)) = length (idle p)).
   { unfold sem_all. pose proof (i_cnt _ _ I) as Hcnt.
     destruct (Nat.leb_spec (length (idle p)) (c_max (p_cfg p) - held p)); [auto | lia]. }
   rewrite Hk.
-  destruct (hc_take_spec (idle p) p I eq_refl) as (J1 & J2 & J3 & J4 & J5 & J5' & J6 & J7 & J8).
-  set (p1 := hc_take (length (idle p)) p) in *.
-  assert (G1 : pgood p1) by (split; [exact J1 | intros Hq; congruence]).
-  destruct (idle p) as [|r0 rest] eqn:Hi.
-  - cbn in *. exists p. subst p1. cbn. rewrite Hh.
-    split; [reflexivity|]. split; [reflexivity|]. split; [exact G|]. split; [intros ? ? []|]. split; auto.
-  - assert (Hh1 : hc p1 = Some (now p, r0 :: rest)).
-    { rewrite J6. unfold hc_time, hc_pending. rewrite Hh. reflexivity. }
-    destruct (tick_all_spec (r0 :: rest) p1 (now p) G1 Hh1 ltac:(discriminate)) as (p' & E & Hn' & G' & N' & HH' & U' & S' & V').
-    exists p'. split; [exact E|]. split; [exact Hn'|]. split; [exact G'|]. split; [|split].
-    + intros r x Hin Hg. specialize (V' r (with_status x RAcquired) Hin (J8 _ _ Hin Hg)).
-      rewrite J4, J3 in V'. exact V'.
-    + intros r Hn. rewrite U' by auto. apply J7; auto.
-    + congruence.
+  set (p0 := set_hc p (Some (now p, []))).
+  assert (I0 : pinv p0).
+  { apply L_hc_same; auto. unfold hc_pending. cbn. rewrite Hh. reflexivity. }
+  destruct (hc_take_spec (idle p) p0 I0 eq_refl) as (J1 & J2 & J3 & J4 & J5 & J5' & J6 & J7 & J8).
+  pose proof (hc_take_frame (length (idle p)) p0 I0) as F0.
+  change (idle p0) with (idle p) in *.
+  set (p1 := hc_take (length (idle p)) p0) in *.
+  assert (G1 : pgood p1) by (split; [exact J1 | intros Hq; cbn in J5; congruence]).
+  assert (Hh1 : hc p1 = Some (now p, idle p)).
+  { rewrite J6. destruct (idle p); reflexivity. }
+  destruct (tick_all_spec (idle p) p1 (now p) G1 Hh1) as (p' & E & Hn' & G' & N' & HH' & C' & K' & F' & U' & S' & V').
+  exists p'. split; [exact E|]. split; [exact Hn'|]. split; [exact G'|].
+  split; [rewrite N', J3; reflexivity|]. split; [rewrite C', J4; reflexivity|].
+  split; [rewrite K', J5; exact Hc|]. split; [eapply frame_trans; [exact F0 | exact F']|].
+  split; [|split].
+  + intros r x Hin Hg. specialize (V' r (with_status x RAcquired) Hin (J8 _ _ Hin Hg)).
+    rewrite J4, J3 in V'. exact V'.
+  + intros r Hn. rewrite U' by auto. apply J7; auto.
+  + rewrite HH', J5'. reflexivity.
+Qed.
+
+(* a whole tick on an open pool: the idle pass, then checkMinConns starts MinConns - Total goroutines *)
+Theorem tick_full_spec : forall p, pgood p -> hc p = None -> pclosed p = false ->
+  exists p', tick_full p = Some p' /\ hc p' = None /\ pgood p' /\
+    (forall r x, In r (idle p) -> get_res p r = Some x ->
+       if tick_verdict (p_cfg p) (now p) (now p) x then status_of p' r = Some RDestroying
+       else status_of p' r = Some RIdle /\ In r (idle p')) /\
+    (forall r, ~ In r (idle p) -> get_res p' r = get_res p r) /\ handles p' = handles p /\
+    total p' = total p /\ constructing p' = constructing p /\
+    spawned p' = spawned p + (c_min (p_cfg p) - total p).
+Proof.
+  intros p G Hh Hc.
+  destruct (tick_pass_spec p G Hh Hc) as (p1 & E & Hh1 & G1 & N1 & C1 & K1 & (F1 & F2 & F3 & F4) & V & U & HH).
+  unfold tick_full. rewrite E. cbn [option_map]. exists (check_min p1).
+  pose proof (check_min_ok p1 G1) as G'. unfold check_min in *. rewrite Hh1 in *.
+  split; [reflexivity|]. split; [reflexivity|]. split; [exact G'|].
+  split; [exact V|]. split; [exact U|]. split; [exact HH|].
+  unfold total in *. cbn [ress constructing ghosts spawned set_spawned set_hc]. rewrite C1, F1, F2.
+  repeat split; auto.
 Qed.
 
 (* ---- statements over histories (what props/C11.v quotes) ---------------------------------------- *)
-Lemma hist_good : forall c ops p, prun (pinit c) ops = Some p -> pgood p.
-Proof. intros c ops p H. apply (reachable_good c). exists ops. exact H. Qed.
+Lemma hist_good : forall c dials ops p, prun (pnew c dials) ops = Some p -> pgood p.
+Proof. intros c dials ops p H. apply (reachable_good c). exists dials, ops. exact H. Qed.
 
-Theorem h_pool_inv : forall c ops, exists p, prun (pinit c) ops = Some p /\ pinv p /\ cinv p.
-Proof. intros. destruct (never_crashes c ops) as (p & E & G). exists p. split; auto. Qed.
+Theorem h_pool_inv : forall c dials ops, exists p, prun (pnew c dials) ops = Some p /\ pinv p /\ cinv p.
+Proof. intros. destruct (never_crashes c dials ops) as (p & E & G). exists p. split; auto. Qed.
 
-Theorem h_one_holder : forall c ops p h1 h2 r, prun (pinit c) ops = Some p ->
+Theorem h_one_holder : forall c dials ops p h1 h2 r, prun (pnew c dials) ops = Some p ->
   handle_of p h1 = Some r -> handle_of p h2 = Some r ->
   h1 = h2 /\ status_of p r = Some RAcquired /\ ~ In r (hc_pending p) /\ ~ In r (idle p).
 Proof. intros. eapply one_holder_good; eauto. eapply hist_good; eauto. Qed.
@@ -1288,6 +1534,21 @@ Proof.
   destruct (ch_do p1 _ k cl) as [p2 o2|] eqn:E2; [|discriminate]. apply ch_do_cfg in E2.
   destruct (ch_release p2 _) as [p3 o3|] eqn:E3; [|discriminate]. apply ch_release_cfg in E3. inversion H; subst. congruence.
 Qed.
+Lemma ch_close_cfg : forall p, p_cfg (ch_close p) = p_cfg p.
+Proof. intros p. unfold ch_close. destruct (pclosed p); auto. destruct (hc p); auto. rewrite close_idle_cfg. reflexivity. Qed.
+Lemma add_created_cfg : forall p t, p_cfg (add_created p t) = p_cfg p.
+Proof. intros. unfold add_created. destruct (pclosed p); reflexivity. Qed.
+Lemma create_idle_cfg : forall k dials p, p_cfg (fst (create_idle k dials p)) = p_cfg p.
+Proof.
+  induction k; intros dials p; cbn; auto. unfold create_resource.
+  destruct (create_refused p); auto. destruct (hd true dials); auto.
+  rewrite IHk. apply add_created_cfg.
+Qed.
+Lemma pnew_cfg : forall c dials, p_cfg (pnew c dials) = c.
+Proof.
+  intros c dials. unfold pnew. pose proof (create_idle_cfg (c_min c) dials (pinit c)) as H.
+  destruct (create_idle (c_min c) dials (pinit c)) as [p [|]]; cbn [fst] in H; [exact H|]. rewrite ch_close_cfg. exact H.
+Qed.
 Lemma pstep_cfg : forall p o p' ob, pstep p o = POk p' ob -> p_cfg p' = p_cfg p.
 Proof.
   intros p o p' ob H. destruct o; cbn [pstep] in H.
@@ -1297,11 +1558,15 @@ Proof.
   - eapply ch_do_cfg; eauto.
   - eapply pool_do_cfg; eauto.
   - eapply pool_do_cfg; eauto.
-  - inversion H; subst. unfold tick_begin. destruct (hc p); auto. destruct (pclosed p); auto. apply hc_take_cfg.
+  - inversion H; subst. unfold tick_begin. destruct (hc p); auto. destruct (pclosed p); auto. rewrite hc_take_cfg. reflexivity.
   - unfold tick_step, pd_release, pd_destroy in H. crush H.
   - inversion H; subst; auto.
   - inversion H; subst. unfold pd_finish. destruct (get_res p r); auto. destruct (r_status r0); auto.
-  - inversion H; subst. unfold ch_close. destruct (pclosed p); auto. destruct (hc p); auto. rewrite close_idle_cfg. reflexivity.
+  - inversion H; subst. apply ch_close_cfg.
+  - inversion H; subst. unfold check_min. destruct (hc p) as [[? [|? ?]]|]; reflexivity.
+  - inversion H; subst. unfold spawn_begin. destruct (spawned p); auto. destruct (create_refused p); reflexivity.
+  - inversion H; subst. unfold spawn_end. destruct (nth_error (constructing p) i); auto. destruct dial_ok; auto.
+    rewrite add_created_cfg. reflexivity.
 Qed.
 Lemma prun_cfg : forall ops p p', prun p ops = Some p' -> p_cfg p' = p_cfg p.
 Proof.
@@ -1309,63 +1574,69 @@ Proof.
   destruct (pstep p a) as [p1 o|] eqn:E; [|discriminate]. rewrite (IHops _ _ H). eapply pstep_cfg; eauto.
 Qed.
 
-Theorem h_total_le_max : forall c ops p, prun (pinit c) ops = Some p ->
-  total p <= c_max c /\ total p = stat_idle p + stat_acquired p /\ stat_idle p = length (idle p).
+Theorem h_total_le_max : forall c dials ops p, prun (pnew c dials) ops = Some p ->
+  total p <= c_max c /\ total p = stat_idle p + stat_acquired p + stat_constructing p /\
+  stat_idle p = length (idle p) + ghosts p /\ (pclosed p = false -> ghosts p = 0).
 Proof.
-  intros c ops p H. pose proof (total_le_max_good p (hist_good _ _ _ H)) as T.
-  rewrite (prun_cfg _ _ _ H) in T. exact T.
+  intros c dials ops p H. pose proof (total_le_max_good p (hist_good _ _ _ _ H)) as T.
+  rewrite (prun_cfg _ _ _ H), pnew_cfg in T. exact T.
 Qed.
 
-(* ---- winding a pool down: Close, release every handle, let every goroutine finish ----------------- *)
-Definition drain_ops (p : pool) : list pop :=
-  PClose :: map PRelease (seq 0 (length (handles p))) ++ map PFinish (seq 0 (length (ress p))).
+(* ---- winding a pool down: Close, release every handle, let every creation in flight and every goroutine finish ---- *)
+Definition drain_ops (p : pool) (dials : list bool) : list pop :=
+  PClose :: map PRelease (seq 0 (length (handles p)))
+    ++ repeat PSpawnBegin (spawned p)
+    ++ map (PSpawnEnd 0) dials
+    ++ map PFinish (seq 0 (length (ress p) + length dials)).
 
 Definition npending (p : pool) (r : nat) : Prop :=
   status_of p r <> Some RDestroying /\ status_of p r <> Some RClosing.
 
 Lemma release_shape : forall p h p' o, pstep p (PRelease h) = POk p' o ->
   length (handles p') = length (handles p) /\ length (ress p') = length (ress p) /\
-  pclosed p' = pclosed p /\ hc p' = hc p.
+  pclosed p' = pclosed p /\ hc p' = hc p /\ spawned p' = spawned p /\ constructing p' = constructing p.
 Proof.
   intros p h p' o H. cbn in H. unfold ch_release in H.
-  destruct (nth_error (handles p) h) as [[r|]|]; try (inversion H; subst; auto; fail).
+  destruct (nth_error (handles p) h) as [[r|]|]; try (inversion H; subst; auto 10; fail).
   unfold get_res in H. cbn in H. destruct (nth_error (ress p) r) as [x|]; [|discriminate].
   destruct (negb (is_acq (r_status x))); [discriminate|].
   destruct (r_cclosed x || expired_life (p_cfg p) (now p) (r_created x)).
-  - inversion H; subst. cbn. rewrite !upd_length. auto.
-  - inversion H; subst. unfold pd_release. cbn. destruct (pclosed p) eqn:Hc; cbn; rewrite !upd_length; auto.
+  - inversion H; subst. cbn. rewrite !upd_length. auto 10.
+  - inversion H; subst. unfold pd_release. cbn. destruct (pclosed p) eqn:Hc; cbn; rewrite !upd_length; auto 10.
 Qed.
 
 Lemma rel_all : forall l p, pgood p -> exists p', prun p (map PRelease l) = Some p' /\ pgood p' /\
   pclosed p' = pclosed p /\ hc p' = hc p /\ length (handles p') = length (handles p) /\
-  length (ress p') = length (ress p) /\
+  length (ress p') = length (ress p) /\ spawned p' = spawned p /\ constructing p' = constructing p /\
   (forall h, In h l -> handle_of p' h = None) /\ (forall h, handle_of p h = None -> handle_of p' h = None).
 Proof.
   induction l as [|a l IH]; intros p G; cbn [map prun].
   - exists p. split; [reflexivity|]. split; [exact G|]. repeat split; auto. intros ? [].
   - destruct (pstep_good p (PRelease a) G) as (p1 & o & E & G1). rewrite E.
-    destruct (release_shape _ _ _ _ E) as (S1 & S2 & S3 & S4).
+    destruct (release_shape _ _ _ _ E) as (S1 & S2 & S3 & S4 & S5 & S6).
     assert (K : forall h, handle_of p h = None -> handle_of p1 h = None).
     { intros h Hh. destruct (Nat.eq_dec h a) as [->|Hne]; [eapply release_clears; eauto|].
       destruct (release_others_untouched _ _ _ _ G E h Hne) as [Hq _]. congruence. }
-    destruct (IH p1 G1) as (p' & E' & G' & T1 & T2 & T3 & T4 & T5 & T6).
+    destruct (IH p1 G1) as (p' & E' & G' & T1 & T2 & T3 & T4 & T4a & T4b & T5 & T6).
     exists p'. split; [exact E'|]. split; [exact G'|]. split; [congruence|]. split; [congruence|].
-    split; [congruence|]. split; [congruence|]. split.
+    split; [congruence|]. split; [congruence|]. split; [congruence|]. split; [congruence|]. split.
     + intros h [->|Hin]; [apply T6; eapply release_clears; eauto | apply T5; auto].
     + intros h Hh. apply T6. apply K. exact Hh.
 Qed.
 
 Lemma finish_shape : forall p r, handles (pd_finish p r) = handles p /\ pclosed (pd_finish p r) = pclosed p /\
   hc (pd_finish p r) = hc p /\ length (ress (pd_finish p r)) = length (ress p) /\
+  spawned (pd_finish p r) = spawned p /\ constructing (pd_finish p r) = constructing p /\ ghosts (pd_finish p r) = ghosts p /\
   npending (pd_finish p r) r /\ (forall r', npending p r' -> npending (pd_finish p r) r').
 Proof.
   intros p r. unfold pd_finish. destruct (get_res p r) as [x|] eqn:Hg.
-  2: { split; [reflexivity|]. split; [reflexivity|]. split; [reflexivity|]. split; [reflexivity|]. split; [|auto].
+  2: { do 7 (split; [reflexivity|]). split; [|auto].
        unfold npending, status_of. rewrite Hg. cbn. split; discriminate. }
   assert (Hdead : let p' := set_res p r (with_status (with_cclosed x true) RDead) in
             handles p' = handles p /\ pclosed p' = pclosed p /\ hc p' = hc p /\ length (ress p') = length (ress p) /\
+            spawned p' = spawned p /\ constructing p' = constructing p /\ ghosts p' = ghosts p /\
             npending p' r /\ (forall r', npending p r' -> npending p' r')).
-  { cbn. rewrite upd_length. split; [reflexivity|]. split; [reflexivity|]. split; [reflexivity|]. split; [reflexivity|].
+  { cbn. rewrite upd_length. do 7 (split; [reflexivity|]).
     assert (Hs : forall r', status_of (set_res p r (with_status (with_cclosed x true) RDead)) r' =
                             if Nat.eqb r r' then Some RDead else status_of p r').
     { intros r'. unfold status_of, get_res, set_res in *. cbn. rewrite (nth_error_upd _ _ _ _ _ r' Hg).
@@ -1376,19 +1647,20 @@ Proof.
   assert (Hsame : r_status x <> RDestroying -> r_status x <> RClosing -> npending p r).
   { intros A B. unfold npending, status_of. rewrite Hg. cbn. split; intros E; inversion E; contradiction. }
   destruct (r_status x) eqn:Hx; try exact Hdead;
-    (split; [reflexivity|]; split; [reflexivity|]; split; [reflexivity|]; split; [reflexivity|];
-     split; [apply Hsame; discriminate | auto]).
+    (do 7 (split; [reflexivity|]); split; [apply Hsame; discriminate | auto]).
 Qed.
 
 Lemma fin_all : forall l p, exists p', prun p (map PFinish l) = Some p' /\ handles p' = handles p /\
   pclosed p' = pclosed p /\ hc p' = hc p /\ length (ress p') = length (ress p) /\
+  spawned p' = spawned p /\ constructing p' = constructing p /\ ghosts p' = ghosts p /\
   (forall r, In r l -> npending p' r) /\ (forall r, npending p r -> npending p' r).
 Proof.
   induction l as [|a l IH]; intros p; cbn [map prun pstep].
   - exists p. split; [reflexivity|]. repeat split; auto; try (intros ? []); apply H.
-  - destruct (finish_shape p a) as (F1 & F2 & F3 & F4 & F5 & F6).
-    destruct (IH (pd_finish p a)) as (p' & E & T1 & T2 & T3 & T4 & T5 & T6).
-    exists p'. split; [exact E|]. split; [congruence|]. split; [congruence|]. split; [congruence|]. split; [congruence|]. split.
+  - destruct (finish_shape p a) as (F1 & F2 & F3 & F4 & F4a & F4b & F4c & F5 & F6).
+    destruct (IH (pd_finish p a)) as (p' & E & T1 & T2 & T3 & T4 & T4a & T4b & T4c & T5 & T6).
+    exists p'. split; [exact E|]. split; [congruence|]. split; [congruence|]. split; [congruence|]. split; [congruence|].
+    split; [congruence|]. split; [congruence|]. split; [congruence|]. split.
     + intros r [->|Hin]; [apply T6; exact F5 | apply T5; auto].
     + intros r Hn. apply T6. apply F6. exact Hn.
 Qed.
@@ -1397,54 +1669,386 @@ Lemma prun_app : forall a b p, prun p (a ++ b) = match prun p a with Some p1 => 
 Proof. induction a; intros b p; cbn; auto. destruct (pstep p a); auto. Qed.
 
 Lemma close_idle_len : forall k q, length (handles (close_idle k q)) = length (handles q) /\
-  length (ress (close_idle k q)) = length (ress q).
+  length (ress (close_idle k q)) = length (ress q) /\ spawned (close_idle k q) = spawned q /\
+  constructing (close_idle k q) = constructing q.
 Proof.
   induction k; intros q; cbn; auto. destruct (idle q); auto. destruct (get_res q n) eqn:Hg; auto.
-  destruct (IHk (set_idle (set_res q n (with_status r RClosing)) l)) as [A B]. rewrite A, B. cbn.
+  destruct (IHk (set_idle (set_res q n (with_status r RClosing)) l)) as (A & B & C & D). rewrite A, B, C, D. cbn.
   rewrite upd_length. auto.
 Qed.
 
-(* from every reachable state in which the health check is not in the middle of a round: Close, then a
-   Release of every handle, then the end of every goroutine, leaves every connection ever opened closed *)
-Theorem drain_closes_everything : forall p, pgood p -> hc p = None ->
-  exists p', prun p (drain_ops p) = Some p' /\ length (ress p') = length (ress p) /\ total p' = 0 /\
+(* the goroutines of checkMinConns that find the pool closed give up *)
+Lemma begin_all_closed : forall k p, pclosed p = true ->
+  exists p', prun p (repeat PSpawnBegin k) = Some p' /\ handles p' = handles p /\ pclosed p' = true /\ hc p' = hc p /\
+    ress p' = ress p /\ constructing p' = constructing p /\ spawned p' = spawned p - k.
+Proof.
+  induction k; intros p Hc; cbn [repeat prun pstep].
+  - exists p. repeat split; auto. lia.
+  - assert (E : handles (spawn_begin p) = handles p /\ pclosed (spawn_begin p) = true /\ hc (spawn_begin p) = hc p /\
+                ress (spawn_begin p) = ress p /\ constructing (spawn_begin p) = constructing p /\
+                spawned (spawn_begin p) = spawned p - 1).
+    { unfold spawn_begin. destruct (spawned p) as [|n] eqn:Hs; [rewrite Hs; auto 10|].
+      unfold create_refused. rewrite Hc, orb_true_r. cbn. repeat split; auto. lia. }
+    destruct E as (E1 & E2 & E3 & E4 & E5 & E6).
+    destruct (IHk (spawn_begin p) E2) as (p' & R & T1 & T2 & T3 & T4 & T5 & T6).
+    exists p'. split; [exact R|]. repeat split; try congruence. lia.
+Qed.
+
+(* the creations in flight complete, whatever their dials do: into a closed pool *)
+Lemma end_all_closed : forall dials p, pclosed p = true -> length dials = length (constructing p) ->
+  exists p', prun p (map (PSpawnEnd 0) dials) = Some p' /\ handles p' = handles p /\ pclosed p' = true /\ hc p' = hc p /\
+    spawned p' = spawned p /\ constructing p' = [] /\ length (ress p') = length (ress p) + length (filter (fun d => d) dials).
+Proof.
+  induction dials as [|d dials IH]; intros p Hc Hl; cbn [map prun pstep].
+  - exists p. destruct (constructing p); [|discriminate]. repeat split; auto.
+  - destruct (constructing p) as [|t l] eqn:Hcs; [discriminate|].
+    assert (E : handles (spawn_end p 0 d) = handles p /\ pclosed (spawn_end p 0 d) = true /\ hc (spawn_end p 0 d) = hc p /\
+                spawned (spawn_end p 0 d) = spawned p /\ constructing (spawn_end p 0 d) = l /\
+                length (ress (spawn_end p 0 d)) = length (ress p) + (if d then 1 else 0)).
+    { unfold spawn_end. rewrite Hcs. cbn [nth_error remove_nth]. destruct d.
+      - unfold add_created. cbn [pclosed set_constructing]. rewrite Hc. cbn. rewrite app_length. cbn. auto 10.
+      - cbn. repeat split; auto. }
+    destruct E as (E1 & E2 & E3 & E4 & E5 & E6).
+    destruct (IH (spawn_end p 0 d) E2) as (p' & R & T1 & T2 & T3 & T4 & T5 & T6).
+    { rewrite E5. cbn in Hl. lia. }
+    exists p'. split; [exact R|]. repeat split; try congruence.
+    rewrite T6, E6. cbn [filter]. destruct d; cbn; lia.
+Qed.
+
+(* from every reachable state in which no tick is in progress: Close, then a Release of every handle, then every
+   goroutine of checkMinConns runs, every creation in flight completes (with any dial outcomes) and every
+   goroutine puddle started ends: every connection ever opened is closed and nothing is in flight *)
+Theorem drain_closes_everything : forall p dials, pgood p -> hc p = None -> length dials = length (constructing p) ->
+  exists p', prun p (drain_ops p dials) = Some p' /\
+    length (ress p') = length (ress p) + length (filter (fun d => d) dials) /\
+    spawned p' = 0 /\ constructing p' = [] /\ total p' = ghosts p' /\
     forall r x, get_res p' r = Some x -> r_status x = RDead /\ r_cclosed x = true.
 Proof.
-  intros p G Hh. unfold drain_ops. cbn [prun pstep].
+  intros p dials G Hh Hl. unfold drain_ops. cbn [prun pstep].
   pose proof (ch_close_ok p G) as G0.
   assert (C0 : pclosed (ch_close p) = true /\ hc (ch_close p) = None /\
-               length (handles (ch_close p)) = length (handles p) /\ length (ress (ch_close p)) = length (ress p)).
-  { unfold ch_close. destruct (pclosed p) eqn:Hc; [auto|]. rewrite Hh.
+               length (handles (ch_close p)) = length (handles p) /\ length (ress (ch_close p)) = length (ress p) /\
+               spawned (ch_close p) = spawned p /\ constructing (ch_close p) = constructing p).
+  { unfold ch_close. destruct (pclosed p) eqn:Hc; [auto 10|]. rewrite Hh.
     destruct (close_idle_ok (length (idle p)) (set_pclosed p true)) as (_ & _ & Q1 & Q2); auto.
     { apply L_closed. apply G. }
     split; [rewrite Q2; reflexivity|]. split; [rewrite Q1; exact Hh|].
-    destruct (close_idle_len (length (idle p)) (set_pclosed p true)) as [A B]. rewrite A, B. auto. }
-  destruct C0 as (C1 & C2 & C3 & C4).
+    destruct (close_idle_len (length (idle p)) (set_pclosed p true)) as (A & B & C & D). rewrite A, B, C, D. auto. }
+  destruct C0 as (C1 & C2 & C3 & C4 & C5 & C6).
   rewrite prun_app.
-  destruct (rel_all (seq 0 (length (handles p))) (ch_close p) G0) as (p1 & E1 & G1 & T1 & T2 & T3 & T4 & T5 & T6).
-  rewrite E1.
-  destruct (fin_all (seq 0 (length (ress p))) p1) as (p2 & E2 & F1 & F2 & F3 & F4 & F5 & F6).
-  exists p2. split; [exact E2|]. split; [congruence|].
+  destruct (rel_all (seq 0 (length (handles p))) (ch_close p) G0) as (p1 & E1 & G1 & T1 & T2 & T3 & T4 & T4a & T4b & T5 & T6).
+  rewrite E1. rewrite prun_app.
+  destruct (begin_all_closed (spawned p) p1 ltac:(congruence)) as (p2 & E2 & B1 & B2 & B3 & B4 & B5 & B6).
+  rewrite E2. rewrite prun_app.
+  destruct (end_all_closed dials p2 B2 ltac:(congruence)) as (p3 & E3 & D1 & D2 & D3 & D4 & D5 & D6).
+  rewrite E3.
+  destruct (fin_all (seq 0 (length (ress p) + length dials)) p3) as (p4 & E4 & F1 & F2 & F3 & F4 & F4a & F4b & F4c & F5 & F6).
+  exists p4. split; [exact E4|].
+  assert (Hlen : length (ress p4) = length (ress p) + length (filter (fun d => d) dials)) by congruence.
+  split; [exact Hlen|]. split; [rewrite F4a, D4, B6; lia|]. split; [congruence|].
   assert (G2 : pgood p2).
-  { destruct (prun_good (map PFinish (seq 0 (length (ress p)))) p1 G1) as (q & Eq & Gq). congruence. }
-  assert (All : forall r x, get_res p2 r = Some x -> r_status x = RDead /\ r_cclosed x = true).
+  { destruct (prun_good (repeat PSpawnBegin (spawned p)) p1 G1) as (q & Eq & Gq). congruence. }
+  assert (G3 : pgood p3).
+  { destruct (prun_good (map (PSpawnEnd 0) dials) p2 G2) as (q & Eq & Gq). congruence. }
+  assert (G4 : pgood p4).
+  { destruct (prun_good (map PFinish (seq 0 (length (ress p) + length dials))) p3 G3) as (q & Eq & Gq). congruence. }
+  assert (All : forall r x, get_res p4 r = Some x -> r_status x = RDead /\ r_cclosed x = true).
   { apply closed_released_all_closed; auto.
     - congruence.
-    - intros h. unfold handle_of. rewrite F1. fold (handle_of p1 h).
+    - intros h. unfold handle_of. rewrite F1, D1, B1. fold (handle_of p1 h).
       destruct (Nat.lt_ge_cases h (length (handles p))).
       + apply T5. apply in_seq. lia.
       + unfold handle_of. assert (nth_error (handles p1) h = None) as -> by (apply nth_error_None; lia). reflexivity.
-    - intros r. destruct (Nat.lt_ge_cases r (length (ress p))).
+    - intros r. assert (Hfl : length (filter (fun d : bool => d) dials) <= length dials).
+      { clear. induction dials as [|d l IHl]; cbn; auto. destruct d; cbn; lia. }
+      destruct (Nat.lt_ge_cases r (length (ress p) + length dials)).
       + apply F5. apply in_seq. lia.
-      + unfold status_of, get_res. assert (nth_error (ress p2) r = None) as -> by (apply nth_error_None; lia).
+      + unfold status_of, get_res. assert (nth_error (ress p4) r = None) as -> by (apply nth_error_None; lia).
         cbn. split; discriminate. }
   split; [|exact All].
   unfold total, cnt. assert (Hf : forall l, (forall x, In x l -> r_status x = RDead) -> filter (fun x => in_pool (r_status x)) l = []).
-  { induction l; intros Hl; cbn; auto. rewrite (Hl a) by (left; auto). cbn. apply IHl. intros; apply Hl; right; auto. }
-  rewrite Hf; auto. intros x Hin. apply In_nth_error in Hin. destruct Hin as [r Hr]. apply (All r x Hr).
+  { induction l; intros Hl'; cbn; auto. rewrite (Hl' a) by (left; auto). cbn. apply IHl. intros; apply Hl'; right; auto. }
+  rewrite Hf.
+  - rewrite F4b, D5. reflexivity.
+  - intros x Hin. apply In_nth_error in Hin. destruct Hin as [r Hr]. apply (All r x Hr).
 Qed.
 
-Theorem h_drain : forall c ops p, prun (pinit c) ops = Some p -> hc p = None ->
-  exists p', prun p (drain_ops p) = Some p' /\ length (ress p') = length (ress p) /\ total p' = 0 /\
+Theorem h_drain : forall c dials0 ops p dials, prun (pnew c dials0) ops = Some p -> hc p = None ->
+  length dials = length (constructing p) ->
+  exists p', prun p (drain_ops p dials) = Some p' /\
+    length (ress p') = length (ress p) + length (filter (fun d => d) dials) /\
+    spawned p' = 0 /\ constructing p' = [] /\ total p' = ghosts p' /\
     forall r x, get_res p' r = Some x -> r_status x = RDead /\ r_cclosed x = true.
-Proof. intros c ops p H. apply drain_closes_everything. eapply hist_good; eauto. Qed.
+Proof. intros c dials0 ops p dials H. apply drain_closes_everything. eapply hist_good; eauto. Qed.
+
+(* ---- MinConns ------------------------------------------------------------------------------------ *)
+Ltac sim := cbn [ress idle handles hc pclosed now p_cfg spawned constructing ghosts length
+                 set_ress set_idle set_handles set_hc set_pclosed set_now set_spawned set_constructing set_ghosts].
+Ltac sim_in H := cbn [ress idle handles hc pclosed now p_cfg spawned constructing ghosts length
+                 set_ress set_idle set_handles set_hc set_pclosed set_now set_spawned set_constructing set_ghosts] in H.
+Definition is_destr (s : rstatus) : bool := match s with RDestroying => true | _ => false end.
+(* connections in the pool whose Destroy goroutine has not finished: puddle (Stat, checkMinConns) still counts them *)
+Definition destroying (p : pool) : nat := cnt is_destr (ress p).
+(* connections in the pool that are idle or in the hands of a holder *)
+Definition live (p : pool) : nat := cnt is_idle (ress p) + cnt is_acq (ress p).
+
+Lemma nth_error_app1_some : forall A (l l' : list A) i x, nth_error l i = Some x -> nth_error (l ++ l') i = Some x.
+Proof. intros A l l' i x H. rewrite nth_error_app1; auto. apply nth_error_Some. congruence. Qed.
+
+Lemma token_split : forall l, cnt holds_token l = cnt is_acq l + cnt is_destr l.
+Proof. induction l; auto. unfold cnt in *; cbn. destruct (r_status a); cbn; lia. Qed.
+
+Lemma total_live : forall p, total p = live p + destroying p + length (constructing p) + ghosts p.
+Proof. intros p. unfold total, live, destroying. rewrite total_split, token_split. lia. Qed.
+
+(* what is left of the promise of checkMinConns: Total + goroutines not yet run >= MinConns, unless the pool is full *)
+Definition min_promise (p : pool) : Prop :=
+  c_min (p_cfg p) <= total p + spawned p \/ c_max (p_cfg p) <= total p.
+
+Lemma spawn_begin_open : forall p, pgood p -> pclosed p = false -> min_promise p ->
+  let p' := spawn_begin p in
+  pclosed p' = false /\ min_promise p' /\ spawned p' = spawned p - 1 /\ ress p' = ress p /\ idle p' = idle p /\
+  handles p' = handles p /\ hc p' = hc p /\ ghosts p' = ghosts p /\ p_cfg p' = p_cfg p.
+Proof.
+  intros p [I C] Hc J. unfold spawn_begin. destruct (spawned p) as [|n] eqn:Hs.
+  { rewrite Hs. repeat split; auto. }
+  destruct (create_refused p) eqn:Hr.
+  - sim. repeat split; auto; try lia. right. unfold create_refused in Hr. rewrite Hc, orb_false_r in Hr.
+    apply orb_true_iff in Hr. pose proof (total_eq _ _ I) as Ht.
+    destruct Hr as [Hr|Hr]; apply Nat.leb_le in Hr; unfold min_promise, total in *; sim; lia.
+  - sim. repeat split; auto; try lia. unfold min_promise, total in *. sim. rewrite app_length. sim.
+    rewrite Hs in J. lia.
+Qed.
+
+Lemma begin_all_open : forall k p, pgood p -> pclosed p = false -> min_promise p ->
+  exists p', prun p (repeat PSpawnBegin k) = Some p' /\ pgood p' /\ pclosed p' = false /\ min_promise p' /\
+    spawned p' = spawned p - k /\ ress p' = ress p /\ idle p' = idle p /\ handles p' = handles p /\ hc p' = hc p /\
+    ghosts p' = ghosts p /\ p_cfg p' = p_cfg p.
+Proof.
+  induction k; intros p G Hc J; cbn [repeat prun pstep].
+  - exists p. split; [reflexivity|]. split; [exact G|]. split; [exact Hc|]. split; [exact J|]. split; [lia|].
+    repeat split; reflexivity.
+  - destruct (spawn_begin_open p G Hc J) as (A1 & A2 & A3 & A4 & A5 & A6 & A7 & A8 & A9).
+    destruct (IHk (spawn_begin p) (spawn_begin_ok p G) A1 A2) as (p' & E & G' & B1 & B2 & B3 & B4 & B5 & B6 & B7 & B8 & B9).
+    exists p'. split; [exact E|]. split; [exact G'|]. split; [exact B1|]. split; [exact B2|]. split; [lia|].
+    repeat split; congruence.
+Qed.
+
+Lemma spawn_end_open : forall p t l, pclosed p = false -> constructing p = t :: l ->
+  let p' := spawn_end p 0 true in
+  pclosed p' = false /\ constructing p' = l /\ spawned p' = spawned p /\ total p' = total p /\
+  destroying p' = destroying p /\ live p' = S (live p) /\ handles p' = handles p /\ hc p' = hc p /\ ghosts p' = ghosts p /\
+  p_cfg p' = p_cfg p /\ ress p' = ress p ++ [mkRes RIdle t t false].
+Proof.
+  intros p t l Hc Hl. unfold spawn_end, add_created. rewrite Hl. cbn [nth_error remove_nth pclosed set_constructing].
+  rewrite Hc. unfold total, destroying, live. sim.
+  rewrite !cnt_app, Hl. cbn [r_status is_idle is_acq is_destr in_pool b2n length]. repeat split; auto; lia.
+Qed.
+
+Lemma end_all_open : forall l p, pgood p -> pclosed p = false -> constructing p = l ->
+  exists p', prun p (repeat (PSpawnEnd 0 true) (length l)) = Some p' /\ pgood p' /\ pclosed p' = false /\
+    constructing p' = [] /\ spawned p' = spawned p /\ total p' = total p /\ destroying p' = destroying p /\
+    live p' = live p + length l /\ handles p' = handles p /\ hc p' = hc p /\ ghosts p' = ghosts p /\ p_cfg p' = p_cfg p /\
+    exists extra, ress p' = ress p ++ extra.
+Proof.
+  induction l as [|t l IH]; intros p G Hc Hl; cbn [length repeat prun pstep].
+  - exists p. split; [reflexivity|]. split; [exact G|]. split; [exact Hc|]. split; [exact Hl|].
+    split; [reflexivity|]. split; [reflexivity|]. split; [reflexivity|]. split; [lia|].
+    do 4 (split; [reflexivity|]). exists []. rewrite app_nil_r. reflexivity.
+  - destruct (spawn_end_open p t l Hc Hl) as (A1 & A2 & A3 & A4 & A5 & A6 & A7 & A8 & A9 & A10 & A11).
+    destruct (IH (spawn_end p 0 true) (spawn_end_ok p 0 true G) A1 A2) as (p' & E & G' & B1 & B2 & B3 & B4 & B5 & B6 & B7 & B8 & B9 & B10 & (ex & B11)).
+    exists p'. split; [exact E|]. split; [exact G'|]. split; [exact B1|]. split; [exact B2|].
+    split; [congruence|]. split; [congruence|]. split; [congruence|]. split; [lia|].
+    do 4 (split; [congruence|]). exists (mkRes RIdle t t false :: ex). rewrite B11, A11, <- app_assoc. reflexivity.
+Qed.
+
+(* checkMinConns and the creations it starts, all dials succeeding, nothing else happening meanwhile: the pool
+   holds at least min(MinConns, MaxConns) resources, none of them under construction.  The count is puddle's:
+   it includes connections whose Destroy goroutine had not finished when checkMinConns read Stat() ([destroying]);
+   when there was none, all of them are live connections *)
+Theorem check_min_restores : forall p t0, pgood p -> hc p = Some (t0, []) ->
+  exists p1 p2, prun (check_min p) (repeat PSpawnBegin (spawned (check_min p))) = Some p1 /\
+    prun p1 (repeat (PSpawnEnd 0 true) (length (constructing p1))) = Some p2 /\
+    pgood p2 /\ hc p2 = None /\ pclosed p2 = false /\ spawned p2 = 0 /\ constructing p2 = [] /\ ghosts p2 = 0 /\
+    handles p2 = handles p /\
+    Nat.min (c_min (p_cfg p)) (c_max (p_cfg p)) <= total p2 /\
+    total p2 = live p2 + destroying p2 /\ destroying p2 = destroying p /\
+    (forall r x, get_res p r = Some x -> get_res p2 r = Some x).
+Proof.
+  intros p t0 G Hh. pose proof (check_min_ok p G) as G0.
+  assert (Hnc : pclosed p = false).
+  { destruct (pclosed p) eqn:Hc; auto. apply (proj2 G) in Hc. destruct Hc; congruence. }
+  assert (S0 : pclosed (check_min p) = false /\ min_promise (check_min p) /\ hc (check_min p) = None /\
+               ress (check_min p) = ress p /\ handles (check_min p) = handles p /\ p_cfg (check_min p) = p_cfg p /\
+               ghosts (check_min p) = ghosts p).
+  { unfold check_min. rewrite Hh. sim. repeat split; auto. left. unfold min_promise, total. sim. lia. }
+  destruct S0 as (S1 & S2 & S3 & S4 & S5 & S6 & S7).
+  destruct (begin_all_open (spawned (check_min p)) _ G0 S1 S2) as (p1 & E1 & G1 & B1 & B2 & B3 & B4 & B5 & B6 & B7 & B8 & B9).
+  destruct (end_all_open (constructing p1) p1 G1 B1 eq_refl) as (p2 & E2 & G2 & D1 & D2 & D3 & D4 & D5 & D6 & D7 & D8 & D9 & D10 & (ex & D11)).
+  exists p1, p2. split; [exact E1|]. split; [exact E2|]. split; [exact G2|]. split; [congruence|]. split; [exact D1|].
+  split; [rewrite D3, B3; lia|]. split; [exact D2|].
+  assert (Hg : ghosts p2 = 0) by (apply (i_ghost _ _ (proj1 G2)); exact D1).
+  split; [exact Hg|]. split; [congruence|]. split; [|split; [|split]].
+  - rewrite D4. destruct B2 as [J|J]; rewrite B9, S6 in J; try rewrite B3 in J; lia.
+  - rewrite (total_live p2), D2, Hg. cbn [length]. lia.
+  - rewrite D5. unfold destroying. rewrite B4, S4. reflexivity.
+  - intros r x Hg'. unfold get_res in *. rewrite D11, B4, S4. apply nth_error_app1_some; exact Hg'.
+Qed.
+
+(* a whole tick of an open pool and what it starts, all dials succeeding: every idle connection past its lifetime
+   or idle time is on its way out - also when that takes the pool to or below MinConns -, every other resource and
+   every handle is untouched, and the pool has been refilled as far as puddle's count allows *)
+Theorem tick_restores : forall p, pgood p -> hc p = None -> pclosed p = false ->
+  exists p0 p1 p2, tick_pass p = Some p0 /\ hc p0 = Some (now p, []) /\
+    prun (check_min p0) (repeat PSpawnBegin (spawned (check_min p0))) = Some p1 /\
+    prun p1 (repeat (PSpawnEnd 0 true) (length (constructing p1))) = Some p2 /\
+    pgood p2 /\ hc p2 = None /\ pclosed p2 = false /\ spawned p2 = 0 /\ constructing p2 = [] /\ handles p2 = handles p /\
+    Nat.min (c_min (p_cfg p)) (c_max (p_cfg p)) <= total p2 /\
+    total p2 = live p2 + destroying p2 /\ destroying p2 = destroying p0 /\
+    (forall r x, In r (idle p) -> get_res p r = Some x ->
+       if tick_verdict (p_cfg p) (now p) (now p) x then status_of p2 r = Some RDestroying
+       else status_of p2 r = Some RIdle) /\
+    (forall r x, ~ In r (idle p) -> get_res p r = Some x -> get_res p2 r = Some x).
+Proof.
+  intros p G Hh Hc.
+  destruct (tick_pass_spec p G Hh Hc) as (p0 & E & Hh0 & G0 & N0 & C0 & K0 & F0 & V & U & HH).
+  destruct (check_min_restores p0 (now p) G0 Hh0) as (p1 & p2 & E1 & E2 & G2 & R1 & R2 & R3 & R4 & R5 & R6 & R7 & R8 & R9 & R10).
+  exists p0, p1, p2. split; [exact E|]. split; [exact Hh0|]. split; [exact E1|]. split; [exact E2|].
+  split; [exact G2|]. split; [exact R1|]. split; [exact R2|]. split; [exact R3|]. split; [exact R4|].
+  split; [congruence|]. split; [rewrite <- C0; exact R7|]. split; [exact R8|]. split; [exact R9|]. split.
+  - intros r x Hin Hg. specialize (V r x Hin Hg).
+    assert (Keep : forall s, status_of p0 r = Some s -> status_of p2 r = Some s).
+    { intros s Hs. destruct (status_get _ _ _ Hs) as (x0 & Hg0 & Hx0). unfold status_of. rewrite (R10 _ _ Hg0). cbn. congruence. }
+    destruct (tick_verdict (p_cfg p) (now p) (now p) x); [apply Keep; exact V | apply Keep; apply V].
+  - intros r x Hn Hg. apply R10. rewrite U; auto.
+Qed.
+
+(* newPool: what createIdleResources leaves *)
+Lemma create_idle_count : forall k dials p p', create_idle k dials p = (p', true) -> pclosed p = false ->
+  pclosed p' = false /\ length (idle p') = length (idle p) + k /\ total p' = total p + k /\ live p' = live p + k /\
+  handles p' = handles p /\ hc p' = hc p /\ spawned p' = spawned p /\ constructing p' = constructing p.
+Proof.
+  induction k; intros dials p p' H Hc; cbn in H.
+  - inversion H; subst. repeat split; auto.
+  - unfold create_resource in H. destruct (create_refused p); [discriminate|].
+    destruct (hd true dials); [|discriminate].
+    apply IHk in H.
+    + unfold add_created in H. rewrite Hc in H. destruct H as (A1 & A2 & A3 & A4 & A5 & A6 & A7 & A8).
+      unfold total, live in *.
+      cbn [ress idle handles hc pclosed ghosts spawned constructing set_ress set_idle length] in *.
+      rewrite !cnt_app in *. cbn [r_status is_idle is_acq is_destr in_pool b2n length] in *. repeat split; auto; lia.
+    + unfold add_created. rewrite Hc. exact Hc.
+Qed.
+
+Lemma create_idle_shape : forall k dials p p' b, create_idle k dials p = (p', b) ->
+  hc p' = hc p /\ handles p' = handles p /\ (pclosed p = false -> pclosed p' = false).
+Proof.
+  induction k; intros dials p p' b H; cbn in H.
+  - inversion H; subst. auto.
+  - unfold create_resource in H. destruct (create_refused p); [inversion H; subst; auto|].
+    destruct (hd true dials); [|inversion H; subst; auto].
+    apply IHk in H. destruct H as (A1 & A2 & A3). unfold add_created in *.
+    destruct (pclosed p) eqn:Hc; cbn in *; repeat split; auto. discriminate.
+Qed.
+
+Lemma close_idle_handles : forall k q, handles (close_idle k q) = handles q.
+Proof.
+  induction k; intros q; cbn; auto. destruct (idle q); auto. destruct (get_res q n); auto. rewrite IHk. reflexivity.
+Qed.
+
+Theorem pnew_spec : forall c dials,
+  if pnew_ok c dials
+  then let p := pnew c dials in
+       pclosed p = false /\ c_min c <= c_max c /\ total p = c_min c /\ length (idle p) = c_min c /\ live p = c_min c /\
+       handles p = [] /\ hc p = None /\ spawned p = 0 /\ constructing p = []
+  else pclosed (pnew c dials) = true /\ idle (pnew c dials) = [] /\ handles (pnew c dials) = [] /\ hc (pnew c dials) = None.
+Proof.
+  intros c dials. unfold pnew_ok.
+  pose proof (pnew_good c dials) as G. pose proof (pnew_cfg c dials) as Hcfg. unfold pnew in *.
+  pose proof (create_idle_ok (c_min c) dials (pinit c) (pinit_good c)) as Gp.
+  destruct (create_idle (c_min c) dials (pinit c)) as [p [|]] eqn:E; cbn [snd fst] in *.
+  - destruct (create_idle_count _ _ _ _ E eq_refl) as (A1 & A2 & A3 & A4 & A5 & A6 & A7 & A8).
+    pose proof (total_le_max_good p G) as (T1 & _). rewrite Hcfg in T1.
+    unfold total, live in *. cbn in *. repeat split; auto; lia.
+  - destruct (create_idle_shape _ _ _ _ _ E) as (H1 & H2 & H3). cbn in H1, H2. specialize (H3 eq_refl).
+    assert (Hcl : pclosed (ch_close p) = true /\ handles (ch_close p) = []).
+    { unfold ch_close. rewrite H3, H1.
+      destruct (close_idle_ok (length (idle p)) (set_pclosed p true)) as (_ & _ & _ & Q2); auto.
+      { apply L_closed. apply Gp. }
+      rewrite Q2, close_idle_handles. auto. }
+    destruct Hcl as [Q1 Q2]. destruct (proj2 G Q1) as [Q3 Q4]. auto.
+Qed.
+
+(* ---- a closed pool with no creation in flight never dials again ----------------------------------- *)
+Lemma pd_acquire_closed : forall p d, pclosed p = true -> pd_acquire p d = AFail p.
+Proof. intros p d Hc. unfold pd_acquire. destruct (c_max (p_cfg p) <=? held p); auto. rewrite Hc. reflexivity. Qed.
+
+Definition quiet (p p' : pool) : Prop :=
+  pclosed p' = true /\ constructing p' = [] /\ length (ress p') = length (ress p).
+
+Lemma ch_do_shape : forall p h k c p' o, ch_do p h k c = POk p' o ->
+  pclosed p' = pclosed p /\ constructing p' = constructing p /\ length (ress p') = length (ress p).
+Proof.
+  intros p h k c p' o H. unfold ch_do in H.
+  destruct (nth_error (handles p) h) as [[r|]|]; try (inversion H; subst; auto; fail).
+  destruct (get_res p r) as [x|]; [|discriminate]. destruct (negb (is_acq (r_status x))); [discriminate|].
+  destruct (r_cclosed x); inversion H; subst; auto. cbn. rewrite upd_length. auto.
+Qed.
+
+Lemma pstep_closed_quiet : forall p o p' ob, pgood p -> pclosed p = true -> constructing p = [] ->
+  pstep p o = POk p' ob -> quiet p p'.
+Proof.
+  intros p o p' ob G Hc Hn H. unfold quiet.
+  assert (Hh : hc p = None) by (apply (proj2 G); exact Hc).
+  assert (Acq : forall d q o1, ch_acquire p d = POk q o1 ->
+            pclosed q = true /\ constructing q = [] /\ length (ress q) = length (ress p) /\ o1 = OErr).
+  { intros d q o1 E. unfold ch_acquire in E. rewrite (pd_acquire_closed p d Hc) in E. inversion E; subst. cbn. auto. }
+  assert (PD : forall d k c, pool_do p d k c = POk p' ob ->
+            pclosed p' = true /\ constructing p' = [] /\ length (ress p') = length (ress p)).
+  { intros d k c E. unfold pool_do in E. destruct (ch_acquire p d) as [q o1|] eqn:E1; [|discriminate].
+    destruct (Acq _ _ _ E1) as (A1 & A2 & A3 & A4). subst o1. inversion E; subst. auto. }
+  destruct o; cbn [pstep] in H.
+  - destruct (Acq _ _ _ H) as (A1 & A2 & A3 & _). auto.
+  - destruct (release_shape _ _ _ _ H) as (_ & S2 & S3 & _ & _ & S6). repeat split; congruence.
+  - destruct (ch_do_shape _ _ _ _ _ _ H) as (S1 & S2 & S3). repeat split; congruence.
+  - destruct (ch_do_shape _ _ _ _ _ _ H) as (S1 & S2 & S3). repeat split; congruence.
+  - eapply PD; eauto.
+  - eapply PD; eauto.
+  - inversion H; subst. unfold tick_begin. rewrite Hh, Hc. auto.
+  - unfold tick_step in H. rewrite Hh in H. inversion H; subst. auto.
+  - inversion H; subst. cbn. auto.
+  - inversion H; subst. destruct (finish_shape p r) as (_ & F2 & _ & F4 & _ & F6 & _). repeat split; congruence.
+  - inversion H; subst. unfold ch_close. rewrite Hc. auto.
+  - inversion H; subst. unfold check_min. rewrite Hh. auto.
+  - inversion H; subst. unfold spawn_begin. destruct (spawned p); auto.
+    unfold create_refused. rewrite Hc, orb_true_r. cbn. auto.
+  - inversion H; subst. unfold spawn_end. rewrite Hn. destruct i; cbn; auto.
+Qed.
+
+Theorem closed_pool_dials_no_more : forall ops p p', pgood p -> pclosed p = true -> constructing p = [] ->
+  prun p ops = Some p' -> quiet p p'.
+Proof.
+  induction ops as [|o ops IH]; intros p p' G Hc Hn H; cbn in H.
+  - inversion H; subst. unfold quiet. auto.
+  - destruct (pstep_good p o G) as (p1 & ob & E & G1). rewrite E in H.
+    destruct (pstep_closed_quiet _ _ _ _ G Hc Hn E) as (Q1 & Q2 & Q3).
+    destruct (IH _ _ G1 Q1 Q2 H) as (R1 & R2 & R3). unfold quiet. repeat split; congruence.
+Qed.
+
+(* the seeded change this guards against (keep expired idle connections while Total <= MinConns): an idle
+   connection past its lifetime or idle time is destroyed by the tick also when the pool is at or below MinConns *)
+Theorem expired_idle_destroyed_at_floor : forall p r x, pgood p -> hc p = None -> pclosed p = false ->
+  total p <= c_min (p_cfg p) -> In r (idle p) -> get_res p r = Some x ->
+  expired_life (p_cfg p) (now p) (r_created x) = true \/ expired_idle (p_cfg p) (now p) (r_lastused x) = true ->
+  exists p', tick_full p = Some p' /\ status_of p' r = Some RDestroying /\ ~ In r (idle p') /\
+    (forall h, handle_of p' h <> Some r) /\ total p' = total p.
+Proof.
+  intros p r x G Hh Hc _ Hin Hg Hexp.
+  destruct (tick_full_spec p G Hh Hc) as (p' & E & Hh' & G' & V & _ & _ & T & _).
+  exists p'. split; [exact E|]. specialize (V r x Hin Hg). unfold tick_verdict in V.
+  assert (Hb : expired_life (p_cfg p) (now p) (r_created x) || expired_idle (p_cfg p) (now p) (r_lastused x) = true).
+  { destruct Hexp as [H|H]; rewrite H; auto using orb_true_r. }
+  rewrite Hb in V. split; [exact V|]. split; [|split; [|exact T]].
+  - intros Hi. apply (i_idle _ _ (proj1 G')) in Hi. congruence.
+  - intros h Hq. apply handle_of_spec in Hq. destruct (i_h_acq _ _ (proj1 G') _ _ Hq) as [Hs _]. congruence.
+Qed.
